@@ -36,6 +36,17 @@ def U(name):
     return {'au': u.au, 'pc': u.pc, 'cm': u.cm}[name]
 
 
+def stored_index(case):
+    """order in which the aperture axis is STORED in the object (the abstract table stays ascending)"""
+    n = len(case['apertures'])
+    how = case.get('ap_store', 'asc')
+    if how == 'desc':
+        return list(range(n))[::-1]
+    if how == 'rot':
+        return list(range(1, n)) + [0]
+    return list(range(n))
+
+
 def bracket(aps, col, req):
     """|y_lo| + |y_hi| of the table interval that holds the request (0 on / beyond the ends)"""
     for i in range(len(aps) - 1):
@@ -79,7 +90,8 @@ def conv_case(draw):
             'flux': [[draw(gen.logfloat(1e-3, 1e3)) for _ in range(nap)] for _ in range(nm)],
             'err': [[draw(gen.logfloat(1e-5, 1e1)) for _ in range(nap)] for _ in range(nm)],
             'table_unit': draw(st.sampled_from(['au', 'au', 'pc', 'cm'])), 'request_unit': draw(st.sampled_from(['au', 'au', 'pc', 'cm'])),
-            'requests': draw(requests(aps)), 'wav': draw(gen.logfloat(0.1, 500.))}
+            'requests': draw(requests(aps)), 'wav': draw(gen.logfloat(0.1, 500.)),
+            'ap_store': draw(st.sampled_from(['asc', 'asc', 'desc', 'rot']))}
 
 
 def run_conv(case, ctx):
@@ -92,9 +104,11 @@ def run_conv(case, ctx):
     with must_succeed('building ConvolvedFluxes'):
         cf.model_names = np.array(case['names'])
         cf.central_wavelength = case['wav'] * u.micron
-        cf.apertures = np.array([a * UFAC[case['table_unit']] for a in aps]) * U(case['table_unit'])
-        cf.flux = np.array(case['flux']) * u.mJy
-        cf.error = np.array(case['err']) * u.mJy
+        aidx = stored_index(case)
+        cf.apertures = np.array([aps[a] * UFAC[case['table_unit']] for a in aidx]) * U(case['table_unit'])
+        cf.flux = np.array([[row[a] for a in aidx] for row in case['flux']]) * u.mJy
+        cf.error = np.array([[row[a] for a in aidx] for row in case['err']]) * u.mJy
+    labels.add('apertures_stored_' + case.get('ap_store', 'asc'))
     reqs = case['requests']
     below = [r for r in reqs if r < aps[0]] if nap > 1 else []
     same = case['table_unit'] == case['request_unit']
@@ -184,7 +198,7 @@ def sed_case(draw, variable=False):
     wav = draw(gen.increasing(nw, 0.1, 1000., 1.05))
     c = {'apertures': aps, 'wav': wav, 'flux': [[draw(gen.logfloat(1e-3, 1e3)) for _ in range(nw)] for _ in range(nap)],
          'table_unit': draw(st.sampled_from(['au', 'au', 'pc', 'cm'])), 'as_quantity': draw(st.booleans()),
-         'sed_order': draw(st.sampled_from(['asc', 'desc']))}
+         'sed_order': draw(st.sampled_from(['asc', 'desc'])), 'ap_store': draw(st.sampled_from(['asc', 'asc', 'desc', 'rot']))}
     if variable:
         nf = draw(st.integers(2, min(6, nw)))
         which = sorted(draw(st.permutations(list(range(nw))))[:nf])
@@ -208,8 +222,9 @@ def make_sed(case):
     s.distance = 1. * u.kpc
     s.wav = np.array([case['wav'][i] for i in idx]) * u.micron
     s.nu = s.wav.to(u.Hz, equivalencies=u.spectral())
-    s.apertures = np.array([a * UFAC[case['table_unit']] for a in case['apertures']]) * U(case['table_unit'])
-    s.flux = np.array([[row[i] for i in idx] for row in case['flux']]) * u.mJy
+    aidx = stored_index(case)
+    s.apertures = np.array([case['apertures'][a] * UFAC[case['table_unit']] for a in aidx]) * U(case['table_unit'])
+    s.flux = np.array([[case['flux'][a][i] for i in idx] for a in aidx]) * u.mJy
     s.error = s.flux * 0.1
     return s, idx
 
